@@ -298,6 +298,45 @@ class FnView(object):
         return node
     return Sub(depth).visit(clone(expr))
 
+  def expand_flow(self, expr, depth=3, stop=()):
+    """like expand(), but a local assigned several times is read as the one
+    definition that reaches this very use (flow-sensitive); `expr` must be a
+    node of the function itself."""
+    from .model import clone
+    defs = self.single_defs()
+    view = self
+
+    def go(node, d):
+      if isinstance(node, ast.Name) and isinstance(node.ctx, ast.Load) and d > 0 \
+          and node.id not in stop:
+        val = defs.get(node.id)
+        if val is None and node.id not in view.fi.params:
+          try:
+            val = view.reaching_value(node)
+          except Exception:
+            val = None
+        if val is not None:
+          return go(val, d - 1)
+        return clone(node)
+      new = clone(node) if not any(True for _ in ast.iter_child_nodes(node)) else None
+      if new is not None:
+        return new
+      # rebuild the node with expanded children (children of the ORIGINAL node
+      # are looked at, so that reaching_value sees real nodes)
+      new = type(node)()
+      for f_, v_ in ast.iter_fields(node):
+        if isinstance(v_, ast.AST):
+          setattr(new, f_, go(v_, d))
+        elif isinstance(v_, list):
+          setattr(new, f_, [go(x_, d) if isinstance(x_, ast.AST) else x_ for x_ in v_])
+        else:
+          setattr(new, f_, v_)
+      for a_ in ('lineno', 'col_offset', 'end_lineno', 'end_col_offset'):
+        if hasattr(node, a_):
+          setattr(new, a_, getattr(node, a_))
+      return new
+    return go(expr, depth)
+
   def deep_text(self, expr, depth=2):
     """source text of `expr` followed by the text of what the helper functions
     it calls return (a literal built by a helper is still that literal)."""
